@@ -22,8 +22,11 @@ def classify(exc):
 
 
 def run_impl(src, externals=None):
-    """outcome of real pyqasm on one program (fresh module per call)"""
+    """outcome of real pyqasm on one program (fresh module per call); plain picklable data:
+    Gallina terms for the parsed program and the unrolled statements, flat ops, dumped text"""
+    import copy
     import pyqasm
+    import flatsim
     out = {"src": src, "ext": list(externals or [])}
     try:
         m = pyqasm.loads(src)
@@ -32,10 +35,11 @@ def run_impl(src, externals=None):
         return out
     out["load"] = "ok"
     out["qasm2"] = type(m).__name__ == "Qasm2Module"
-    out["prog"] = m.original_program
-    import copy
-    prog_copy = copy.deepcopy(m.original_program)   # visits literalise register sizes in place
-    out["prog"] = prog_copy
+    try:
+        out["prog_term"] = ir.program(copy.deepcopy(m.original_program))   # visits literalise sizes in place
+    except ir.Unconvertible as e:
+        out["load"] = "unconvertible:%s" % e
+        return out
     try:
         m.validate()
         out["validate"] = "ok"
@@ -50,32 +54,51 @@ def run_impl(src, externals=None):
         else:
             m2.unroll()
         out["unroll"] = "ok"
-        out["stmts"] = m2.unrolled_ast.statements
+        stmts = m2.unrolled_ast.statements
         out["nq"], out["nc"] = m2._num_qubits, m2._num_clbits
         dq = max([n.depth for n in m2._qubit_depths.values()] or [0])
         dc = max([n.depth for n in m2._clbit_depths.values()] or [0])
         out["depth"] = max(dq, dc)
+        try:
+            out["stmts_term"] = ir.clist([ir.stmt(x) for x in stmts])
+        except ir.Unconvertible as e:
+            out["stmts_term"] = None
+            out["unconvertible"] = str(e)
+        try:
+            out["ops"] = flatsim.from_ast(stmts, strict=False)
+        except flatsim.NotFlat as e:
+            out["ops"] = None
+            out["notflat"] = str(e)
+        try:
+            flatsim.from_ast(stmts, strict=True)
+            if out["ops"] is not None:
+                flatsim.check_ranges(out["ops"])
+            out["flat_error"] = None
+        except flatsim.NotFlat as e:
+            out["flat_error"] = str(e)
+        try:
+            out["dump"] = pyqasm.dumps(m2)
+        except Exception as e:
+            out["dump"] = None
+            out["dump_error"] = "%s: %s" % (type(e).__name__, e)
     except RecursionError:
         out["unroll"] = "internal:RecursionError"
     except Exception as e:
         out["unroll"] = classify(e)
+        out["unroll_msg"] = str(e)[:200]
     return out
 
 
-def expected_term(cls, stmts=None, nq=0, nc=0, depth=0):
-    if cls == "ok":
-        return "(XOk %s %s %s %s)" % (ir.clist([ir.stmt(s) for s in stmts or []]), ir.cZ(nq), ir.cZ(nc), ir.cZ(depth))
-    if cls == "validation":
-        return "XValidation"
-    return "XInternal"
-
-
 def case_term(o):
-    prog = ir.program(o["prog"])
+    if o.get("unroll") == "ok":
+        if o.get("stmts_term") is None:
+            raise ir.Unconvertible(o.get("unconvertible", "?"))
+        unr = "(XOk %s %s %s %s)" % (o["stmts_term"], ir.cZ(o["nq"]), ir.cZ(o["nc"]), ir.cZ(o["depth"]))
+    else:
+        unr = "XValidation" if o["unroll"] == "validation" else "XInternal"
+    val = "(XOk [] 0 0 0)" if o["validate"] == "ok" else ("XValidation" if o["validate"] == "validation" else "XInternal")
     ext = ir.clist([ir.cstr(x) for x in o["ext"]])
-    val = expected_term(o["validate"]) if o["validate"] != "ok" else "(XOk [] 0 0 0)"
-    unr = expected_term(o["unroll"], o.get("stmts"), o.get("nq", 0), o.get("nc", 0), o.get("depth", 0))
-    return "(mkCase %s %s %s %s %s)" % ("true" if o.get("qasm2") else "false", prog, ext, val, unr)
+    return "(mkCase %s %s %s %s %s)" % ("true" if o.get("qasm2") else "false", o["prog_term"], ext, val, unr)
 
 
 HEADER = ("From Coq Require Import ZArith List String PrimFloat.\n"
